@@ -175,13 +175,18 @@ pub fn scale_tag_family(n: usize) -> Vec<(String, ModelSpec)> {
     {
         let mut m = boundary_part(0, 2);
         let real = ["a", "ab", "b", "ba"];
+        // the evaluated tokens sit at the start, at one and two thirds and at the very END of the list (an index
+        // type too narrow for the list length shows on the last one)
+        let at = [0, n / 3, 2 * n / 3, n - 1];
         for i in 0..n {
-            if i % (n / 4).max(1) == 0 && i / (n / 4).max(1) < 4 {
-                let t = real[i / (n / 4).max(1)];
-                m.tag_models.push(tag_model(t, &[3, 2], &[pool6[0].clone(), pool6[3].clone(), pool6[7].clone()], 0, 900 + i as u64));
+            if i != n - 1 {
+                if let Some(r) = at.iter().position(|&a| a == i) {
+                    m.tag_models.push(tag_model(real[r], &[3, 2], &[pool6[0].clone(), pool6[3].clone(), pool6[7].clone()], 0, 900 + i as u64));
+                }
             }
             m.tag_models.push(tag_model(&filler(i), &[2], &[pool6[(i % 7) as usize].clone()], 0, i as u64));
         }
+        m.tag_models.push(tag_model(real[3], &[3, 2], &[pool6[0].clone(), pool6[3].clone(), pool6[7].clone()], 0, 900 + n as u64));
         out.push((format!("T7 {n} tag tokens"), m));
     }
     {
@@ -196,6 +201,20 @@ pub fn scale_tag_family(n: usize) -> Vec<(String, ModelSpec)> {
         m.tag_models.push(tag_model("a", &[3, 2], &ngs, 0, 4242));
         m.tag_models.push(tag_model("ab", &[2, 2], &[pool6[2].clone()], 1, 78));
         out.push((format!("T7 {n} tag n-grams at one position"), m));
+    }
+    // ONE suffix n-gram shared by many tokens (its merged table is large), and longer n-grams ending in it
+    // that carry weights for the SAME (token, position) - the merge along the suffix chain must add, per token
+    for k in [255usize, 256, 257, (n / 8).max(300)] {
+        let mut m = boundary_part(0, 2);
+        let chain = [TagNg::Char("a".into(), 0), TagNg::Char("ba".into(), 0), TagNg::Char("aba".into(), 0), TagNg::Type(vec![2], 0), TagNg::Type(vec![2, 2], 0)];
+        for i in 0..k {
+            if i % (k / 4).max(1) == 0 && i / (k / 4).max(1) < 4 {
+                let t = ["a", "ab", "b", "ba"][i / (k / 4).max(1)];
+                m.tag_models.push(tag_model(t, &[3, 2], &chain, 0, 7000 + i as u64));
+            }
+            m.tag_models.push(tag_model(&filler(i), &[2], &[chain[0].clone(), chain[3].clone()], 0, i as u64));
+        }
+        out.push((format!("T7 suffix n-gram shared by {k} tokens"), m));
     }
     out
 }
@@ -462,6 +481,9 @@ pub fn replay(c: &Value) -> Option<(String, String)> {
     let text: Vec<char> = c["text"].as_str()?.chars().collect();
     let forced: Option<Vec<u8>> = serde_json::from_value(c["forced"].clone()).ok()?;
     let pre = c["pre"].as_u64().unwrap_or(0) as u8;
+    if let Some(l) = c["label"].as_str() {
+        return check_case(&spec, &pred, store, &text, forced.as_deref(), pre).1.map(|(k, w)| (format!("{k} {desc} store={} {l} pre={pre}", store as u8), w.chars().take(600).collect()));
+    }
     check_case(&spec, &pred, store, &text, forced.as_deref(), pre).1.map(|(k, w)| (format!("{k} {desc} store={} text={} labels={} pre={pre}", store as u8, gen::s(&text), lab(forced.as_deref())), w))
 }
 
@@ -526,6 +548,51 @@ pub fn run(tier: Tier) -> ! {
             chk.sample(json!({"model": c.desc, "tag_models": c.spec.tag_models}));
         }
     });
+    // threshold lengths: texts around 255/256 and 1 KiB characters (thorough also 4 KiB and u16) with predicted
+    // boundaries and with periodic forced labels: one token as long as the text, as many tokens as characters,
+    // and periods 2 and 3 - every n-th model, both storing modes, pre-states rotating
+    {
+        let lens: Vec<usize> = tier.pick(vec![255usize, 256, 257, 1025], vec![255, 256, 257, 1025, 4097, 65535, 65537]);
+        chk.set("threshold_text_lengths", json!(lens));
+        let pats: [&[u8]; 5] = [&[0], &[1], &[0, 1], &[1, 0, 0], &[0, 2, 1]];
+        let sub: Vec<(usize, &Case)> = cases.iter().enumerate().step_by(tier.pick(23, 5)).collect();
+        chk.set("threshold_models", json!(sub.len()));
+        sub.par_iter().for_each(|(ci, c)| {
+            for store in [false, true] {
+                let Ok(pred) = build(&c.spec, store) else { continue };
+                for (li, &len) in lens.iter().enumerate() {
+                    // the u16-sized texts on every 9th model of the sub-sample only (cost)
+                    if len > 60_000 && (ci / tier.pick(23, 5)) % 9 != 0 {
+                        continue;
+                    }
+                    for kind in 0..2 {
+                        let text: Vec<char> = (0..len).map(|i| if kind == 0 { sigma[(i + i / 5) % 3] } else { sigma[(i / 7) % 2] }).collect();
+                        let mut todo: Vec<Option<Vec<u8>>> = vec![None];
+                        for p in pats {
+                            todo.push(Some((0..len - 1).map(|i| p[i % p.len()]).collect()));
+                        }
+                        for (fi, forced) in todo.into_iter().enumerate() {
+                            let pre = [0u8, 1, 2, 4][(fi + li + ci) % 4];
+                            let (nt, v) = check_case(&c.spec, &pred, store, &text, forced.as_deref(), pre);
+                            chk.eval(1);
+                            if nt {
+                                chk.nontrivial(1);
+                            }
+                            if let Some((k, what)) = v {
+                                let t = gen::s(&text);
+                                let what: String = what.chars().take(600).collect();
+                                chk.violation(
+                                    format!("{k} {} store={} text=len{len}kind{kind} labels=pattern{fi} pre={pre}", c.desc, store as u8),
+                                    what,
+                                    json!({"desc": c.desc, "spec": c.spec, "store": store, "text": t, "forced": forced, "pre": pre, "label": format!("text=len{len}kind{kind} labels=pattern{fi}")}),
+                                );
+                            }
+                        }
+                    }
+                }
+            }
+        });
+    }
     chk.assume("reference: candidate score = bias + weights of every tag n-gram whose occurrence ends rel_position characters after the token's last character; first maximum wins");
     chk.assume("boundaries at fill time are read back from the sentence (their correctness is C01)");
     chk.finish(
